@@ -5,6 +5,35 @@ EXPLANATION = ('Bounded symbolic verification of the real code. O1/O2: CBMC (via
                'mdk-storage-traits comparators and Group::update_last_message_if_newer for all 64-bit timestamps and '
                '32-byte ids. Further obligations are added by other engines (see obligation_results).')
 TRUSTED = ['Kani 0.68 / CBMC 6.11 translation of Rust MIR', 'harness-side reference comparator (3 lines, kani/direct/src/c18.rs)']
+import z3
+from mirsym.api import Ob, guard
+from mirsym import models as M
+from props.memharness import ts, eid
+
+
+@guard
+def o6(tier):
+    """cross-engine agreement: the claim of O1 (Kani, compiled code) decided again by mirsym over the MIR of the same functions"""
+    ob = Ob('O6', 'cross-engine: compare_display_keys / compare_processed_at_keys equal the documented lexicographic order for all keys, decided by mirsym/z3 over the MIR (same claim as O1, other engine)',
+            crates=('mdk-storage-traits',))
+    n = 0
+    for fn, first, second in [('compare_display_keys', 'created', 'processed'), ('compare_processed_at_keys', 'processed', 'created')]:
+        f = ob.fn('mdk-storage-traits', 'messages::types::Message::' + fn)
+        a1, a2, b1, b2 = (z3.BitVec(f'{fn}_{x}', 64) for x in ('a1', 'a2', 'b1', 'b2'))
+        ai, bi = z3.BitVec(f'{fn}_aid', 256), z3.BitVec(f'{fn}_bid', 256)
+        paths = ob.explore(f, [ts(a1), ts(a2), eid(ai), ts(b1), ts(b2), eid(bi)])
+        for p in paths:
+            n += 1
+            if p.kind != 'return':
+                ob.require(False, f'O6/{fn}/panic', f'{fn} can panic: {p.msg}', p); continue
+            o = M.ordering_val(p.ret)
+            lt = z3.Or(z3.ULT(a1, b1), z3.And(a1 == b1, z3.Or(z3.ULT(a2, b2), z3.And(a2 == b2, z3.ULT(ai, bi)))))
+            eq = z3.And(a1 == b1, a2 == b2, ai == bi)
+            ref = z3.If(lt, z3.BitVecVal(-1, 8), z3.If(eq, z3.BitVecVal(0, 8), z3.BitVecVal(1, 8)))
+            ob.prove(p, o == ref, f'O6/{fn}/not-lexicographic', f'{fn} differs from the documented order ({first}, then {second}, then id; unsigned / bytewise)')
+    ob.r.bounds = {'timestamps': 'all u64', 'ids': 'all 256-bit values (EventId order = big-endian byte order)'}
+    ob.r.assumptions.append('EventId/Timestamp Ord = bytewise / unsigned order (std model); the same claim is decided on the compiled code by O1')
+    return ob.done(cases=n)
 
 
 def run(tier, seed, only=None):
@@ -29,6 +58,8 @@ def run(tier, seed, only=None):
         out.append(r4)
         r5 = C10.o2(tier); r5.oid = 'O5'; r5.title = 'SQLite LIMIT/OFFSET == slice pagination for all limits and usize offsets (shared with C10-O2)'
         out.append(r5)
+    if not only or 'O6' in only:
+        out.append(o6(tier))
     if not only or 'O3' in only:
         from props import memobs
         out.append(memobs.messages_listing(tier, 'O3', 'O3'))
